@@ -483,6 +483,32 @@ def common_summaries():
             raise Unsupported(f"string comparison on {a!r} / {b!r} in {fn}")
         return [(st, Bool(a.s == b.s if fn.endswith('eq') else a.s != b.s))]
 
+    # text predicates / transformers the encoding does not interpret: uninterpreted functions of the text (congruent, nothing else)
+    _UF = {}
+
+    def uf(name, *sorts):
+        if name not in _UF:
+            _UF[name] = z3.Function('text.' + name, *sorts)
+        return _UF[name]
+
+    @reg(r'^(core|std)::str::<impl str>::(starts_with|ends_with|contains)::<&str>$|^(core|std)::str::<impl str>::eq_ignore_ascii_case$')
+    def str_pred(ex, st, fn, argv):
+        a, b = deref(ex, st, argv[0]), deref(ex, st, argv[1])
+        if not isinstance(a, Str) or not isinstance(b, Str):
+            raise Unsupported(f"text predicate on {a!r} / {b!r} in {fn}")
+        name = re.search(r'(starts_with|ends_with|contains|eq_ignore_ascii_case)', fn).group(1)
+        r = uf(name, StrSort, StrSort, z3.BoolSort())(a.s, b.s)
+        st.pc.append(z3.Implies(a.s == b.s, r))    # every text starts with / ends with / contains / equals itself
+        return [(st, Bool(r))]
+
+    @reg(r'^(core|std|alloc)::str::<impl str>::(to_lowercase|to_uppercase|to_ascii_lowercase|to_ascii_uppercase|trim|trim_start|trim_end)$')
+    def str_map(ex, st, fn, argv):
+        a = deref(ex, st, argv[0])
+        if not isinstance(a, Str):
+            raise Unsupported(f"text transformer on {a!r} in {fn}")
+        name = fn.split('::')[-1]
+        return [(st, Str(uf(name, StrSort, StrSort)(a.s)))]
+
     @reg(r'^<Option<&str> as PartialEq>::(eq|ne)$|^<Option<(std::string::)?String> as PartialEq>::(eq|ne)$')
     def opt_str_eq(ex, st, fn, argv):
         a, b = as_enum(ex, st, deref(ex, st, argv[0])), as_enum(ex, st, deref(ex, st, argv[1]))
